@@ -14,7 +14,7 @@ import (
 func init() { register("C05", checkC05) }
 
 func checkC05(c *Ctx) {
-	c.Rule("C05.R1", "sweep before select: in every backend's dequeue step the expired-lease release dominates candidate selection (SQLite: unless the sweep throttle says no); the throttle clock advances only when a sweep is granted")
+	c.Rule("C05.R1", "sweep before select: in every backend's dequeue step the expired-lease release dominates candidate selection (SQLite: unless the sweep throttle says no); the throttle clock advances only when a sweep is granted, and a sweep is refused only because (now - last sweep) is below the interval")
 	c.Rule("C05.R2", "no hidden filter: candidate selection conjuncts are exactly {state=queued, next_run_at<=now, [route], [target]}, ordered by next_run_at, received_at with the batch as LIMIT; the memory candidate loop skips only on those conditions")
 	c.Rule("C05.R3", "visibility times: nack stores next_run_at = now+delay with delay clamped >= 0; lease expiry and operator requeue/resume store next_run_at = now")
 	c.Rule("C05.R4", "the constant bounding the SQLite sweep throttle is <= 10ms")
@@ -272,6 +272,92 @@ func checkThrottleClock(c *Ctx, rule string, fn *ssa.Function) {
 	if !bad {
 		c.Ok(rule, key, p.Pos(fn.Pos()), fmt.Sprintf("%d clock write(s), each only on a granted sweep", len(writers)+len(plain)))
 	}
+	// the only reason to refuse a sweep is the granularity throttle: every path returning constant false has
+	// established (now - last sweep) < interval; state other than the clock (counters, flags) must not suppress the sweep,
+	// because leases written by an earlier process expire without this process ever having issued one
+	nRef := 0
+	for _, pa := range enumeratePaths(fn.Blocks[0], 500) {
+		v := resolveOnPath(pa.Ret.Results[0], pa)
+		cst, isC := v.(*ssa.Const)
+		if !isC || cst.Value == nil || cst.Value.String() != "false" {
+			continue
+		}
+		nRef++
+		timeBased := false
+		var conds []string
+		for _, pc := range pathConds(pa) {
+			bo, ok := pc.Cond.(*ssa.BinOp)
+			if !ok {
+				conds = append(conds, shortVal(pc.Cond))
+				continue
+			}
+			conds = append(conds, fmt.Sprintf("%s %s %s = %v", shortVal(bo.X), bo.Op, shortVal(bo.Y), pc.Val))
+			for _, side := range []ssa.Value{bo.X, bo.Y} {
+				if sub, ok := side.(*ssa.BinOp); ok && sub.Op == token.SUB {
+					nowSide := valueDerivesFromParam(sub.X, fn, 0)
+					lastSide := valueReadsReceiverField(sub.Y, 0)
+					less := (bo.Op == token.LSS || bo.Op == token.LEQ) == pc.Val
+					if side == bo.Y {
+						less = (bo.Op == token.GTR || bo.Op == token.GEQ) == pc.Val
+					}
+					if nowSide && lastSide && less {
+						timeBased = true
+					}
+				}
+			}
+		}
+		c.Check(timeBased, rule, fmt.Sprintf("%s:refusal#%d is the granularity throttle", FuncName(fn), nRef), p.InstrPos(pa.Ret),
+			"refuses only when (now - last sweep) is below the interval",
+			"a sweep of expired leases can be refused on a path that never compared (now - last sweep) with the interval ["+strings.Join(conds, " ∧ ")+"]: expired leases — including ones inherited from a previous process — may never be released")
+	}
+	c.Floor(rule, "throttle refusal paths", nRef, 1)
+}
+
+func valueDerivesFromParam(v ssa.Value, fn *ssa.Function, depth int) bool {
+	if depth > 6 || v == nil {
+		return false
+	}
+	switch x := v.(type) {
+	case *ssa.Parameter:
+		return x != fn.Params[0] || fn.Signature.Recv() == nil
+	case *ssa.Call:
+		for _, a := range x.Call.Args {
+			if valueDerivesFromParam(a, fn, depth+1) {
+				return true
+			}
+		}
+	case *ssa.Convert:
+		return valueDerivesFromParam(x.X, fn, depth+1)
+	case *ssa.UnOp:
+		if al, ok := x.X.(*ssa.Alloc); ok {
+			if sp := spilledParam(al); sp != nil {
+				return valueDerivesFromParam(sp, fn, depth+1)
+			}
+		}
+		return valueDerivesFromParam(x.X, fn, depth+1)
+	}
+	return false
+}
+
+func valueReadsReceiverField(v ssa.Value, depth int) bool {
+	if depth > 6 || v == nil {
+		return false
+	}
+	switch x := v.(type) {
+	case *ssa.Call:
+		for _, a := range x.Call.Args {
+			if valueReadsReceiverField(a, depth+1) {
+				return true
+			}
+		}
+	case *ssa.FieldAddr:
+		return true
+	case *ssa.Convert:
+		return valueReadsReceiverField(x.X, depth+1)
+	case *ssa.UnOp:
+		return valueReadsReceiverField(x.X, depth+1)
+	}
+	return false
 }
 
 func checkCandidateFilter(c *Ctx, rule string) {
